@@ -129,6 +129,13 @@ func classes(pki, other *fix.PKI, name certs.Name, rng *vh.Rand) []*presented {
 	ls := fix.Forge(fix.CertSpec{Type: certs.Leaf, Names: []certs.Name{name}, Issued: now.Add(-time.Hour), Expires: now.Add(24 * time.Hour), PublicKey: k.Public, Parent: pki.Int.Fingerprint, SignSeed: seed(other.IntKey)})
 	add(&presented{Class: "leaf-signed-by-another-ca", Leaf: ls, Int: pki.Int, Key: k, Parse: true, LeafType: true, NameOK: true, TimeOK: true, ChainOK: false, HoldsKey: true})
 
+	// a certificate for the all-zero point (a low-order point: every Diffie-Hellman
+	// with it gives zeros): nobody holds a private key for it
+	var zero keys.DHPublicKey
+	if zl, err := certs.SelfSignLeaf(&certs.Identity{PublicKey: zero, Names: []certs.Name{name}}); err == nil {
+		add(&presented{Class: "low-order-public-key", Leaf: zl, Key: keys.GenerateNewX25519KeyPair(), Parse: true, LeafType: true, NameOK: true, TimeOK: true, ChainOK: false, HoldsKey: false})
+	}
+
 	add(&presented{Class: "garbage-bytes", RawLeaf: rng.Bytes(150 + rng.Intn(100)), Key: keys.GenerateNewX25519KeyPair(), HoldsKey: true})
 
 	// keys the verifier may have been told to trust (authorized keys):
@@ -437,7 +444,62 @@ func drainAccept2(s *transport.Server) []*transport.Handle {
 	}
 }
 
+// keySetHistory: the set of authorized keys changes while the server runs (as
+// it does when authorization grants come and go): a key opens the door exactly
+// while it is in the set.
+func keySetHistory(r *vh.Runner, c *vh.Case, rep int) {
+	rng := vh.NewRand(r.Seed, "c01-keyset", rep)
+	ks := authkeys.NewSyncAuthKeySet()
+	cv := &transport.VerifyConfig{AuthKeys: ks, AuthKeysAllowed: true}
+	hidden := rng.Chance(0.4)
+	w := fix.NewWorld(false, cv, nil)
+	defer w.Server.Close()
+	ids := []*fix.Identity{fix.SelfSigned(), fix.SelfSigned()}
+	in := []bool{false, false}
+	var history []string
+	for step := 0; step < 6+rng.Intn(8) && !c.Violated(); step++ {
+		k := rng.Intn(2)
+		switch rng.Intn(3) {
+		case 0:
+			ks.AddKey(ids[k].Key.Public)
+			in[k] = true
+			history = append(history, fmt.Sprintf("add K%d", k))
+		case 1:
+			ks.RemoveKey(ids[k].Key.Public)
+			in[k] = false
+			history = append(history, fmt.Sprintf("remove K%d", k))
+		}
+		k = rng.Intn(2)
+		cl, _ := w.NewClient(ids[k], hidden, 2*time.Second)
+		err := cl.Handshake()
+		admitted := false
+		if err == nil {
+			if h, aerr := w.Server.AcceptTimeout(300 * time.Millisecond); aerr == nil {
+				admitted = true
+				h.Close()
+			}
+		}
+		cl.Close()
+		history = append(history, fmt.Sprintf("K%d connects: admitted=%v", k, admitted))
+		r.Count("evaluations", 1)
+		r.Count("key_set_history_connects", 1)
+		if admitted && !in[k] {
+			c.Violate("C01:server-admits-a-key-that-is-not-in-the-authorized-set:after-add-remove-history", map[string]any{"history": history, "hidden": hidden})
+		}
+		if admitted {
+			r.Count("key_set_history_admitted", 1)
+		}
+	}
+	r.Nontrivial(fmt.Sprintf("keyset|%d", rep))
+}
+
 func genC01(r *vh.Runner) {
+	nk := r.Pick(8, 400)
+	for k := 0; k < nk; k++ {
+		r.Case(fmt.Sprintf("key-set-history/%d", k), map[string]any{"rep": k}, func(c *vh.Case) {
+			c.Bubble(func() { keySetHistory(r, c, k) })
+		})
+	}
 	seeds := r.Pick(2, 4000)
 	for seed := 0; seed < seeds; seed++ {
 		for _, hidden := range []bool{false, true} {
